@@ -240,6 +240,14 @@ class _NestedImports(ast.NodeTransformer):
     def _get(self, mod, name):
         key = {"..emas": "emas", "groupby_lib.emas": "emas", "..util": "util", "groupby_lib.util": "util"}.get(mod)
         if key is None or key not in self.engine.mods:
+            if mod.startswith("pandas.") or mod.startswith("numpy."):
+                # a function-level import of a third-party helper: whether it exists is a fact about this environment and part of the
+                # behaviour of the code under test (an ImportError here is what the user gets); an existing helper is outside the models
+                import importlib
+                m = importlib.import_module(mod)          # raises ModuleNotFoundError exactly as the real code does
+                if not hasattr(m, name):
+                    raise ImportError(f"cannot import name {name!r} from {mod!r}")
+                raise OutsideModel(f"third-party helper {mod}.{name} has no model")
             raise Unsupported(f"nested import from {mod}")
         return self.engine.mods[key].ns[name]
 
